@@ -1,4 +1,4 @@
-import Zstd.Proofs.MatchTop
+import Zstd.Proofs.MatchValid
 /-
 C17 — The built-in match finder reports only true, in-window matches that tile the block.
 
@@ -24,7 +24,7 @@ where sequence `i` starts; `p0 = d.mg.suffixIdx` = position in the block where r
 (`0` right after `commit_space`: theorem `commit_fresh`).
 -/
 namespace Zstd.Props.C17
-open Zstd Zstd.Model.MG Zstd.Proofs.MG
+open Zstd Zstd.Model Zstd.Model.MG Zstd.Proofs.MG
 
 variable (key : KeyFn) (sl n : Nat) (d d' : Driver) (seqs : List Seq)
 
@@ -153,10 +153,8 @@ theorem replay_reconstructs_block (hr : Reachable key sl n d) (h : d.startMatchi
 
 /-- matching changes neither the retained bytes nor the block; afterwards the block counts as processed -/
 theorem matching_keeps_window (hr : Reachable key sl n d) (h : d.startMatching key = .ok (d', seqs)) :
-    d'.windowBytes = d.windowBytes ∧ d'.block = d.block ∧ d'.mg.processed = true := by
-  obtain ⟨last, hl, _, _, _, _, _, hsh, ⟨last', hl', hd⟩, hend⟩ := start_core key sl n d d' seqs hr h
-  refine ⟨by rw [windowBytes_eq, windowBytes_eq, hsh], by rw [block_eq d last hl, block_eq d' last' hl', hd], ?_⟩
-  simp [MatchGenerator.processed, hl', hend, hd]
+    d'.windowBytes = d.windowBytes ∧ d'.block = d.block ∧ d'.mg.processed = true :=
+  matching_keeps_window_core key sl n d d' seqs hr h
 
 /-! ### the window across `commit_space` (eviction), `skip_matching`, `reset` -/
 
@@ -166,47 +164,17 @@ theorem commit_fresh (hr : Reachable key sl n d) (space : Array Byte) (cap : Nat
     (h : d.commitSpace space cap = .ok d') :
     d'.mg.suffixIdx = 0 ∧ d'.block = space.toList ∧
     (∃ k, d'.windowBytes = d.windowBytes.drop k ++ space.toList) ∧
-    d'.windowBytes.length ≤ d'.windowSize ∧ d'.windowSize = d.windowSize := by
-  obtain ⟨hwf, _⟩ := reachable_wf key sl n d hr
-  unfold Driver.commitSpace at h
-  split at h
-  · simp at h
-  · rename_i g released hadd
-    simp only [Except.ok.injEq] at h
-    subst h
-    obtain ⟨hwf', hm, hs, ⟨kept, hw, hw'⟩, _⟩ := addData_spec _ _ _ _ _ _ hwf hadd
-    have hflatShift : flat (shape (shiftBases kept)) = flat (shape kept) := by
-      unfold shiftBases
-      split
-      · rfl
-      · simp [flat, shape, List.flatMap_map]
-    refine ⟨hs, ?_, ⟨(flat (shape released)).length, ?_⟩, ?_, hm⟩
-    · simp [Driver.block, Driver.recycle, hw']
-    · rw [windowBytes_eq, windowBytes_eq]
-      simp only [Driver.recycle, hw', hw, shape_append, flat_append, hflatShift]
-      simp [flat]
-    · rw [windowBytes_eq]
-      simp only [flat_length, Driver.recycle, Driver.windowSize]
-      rw [← hwf'.size]
-      exact hwf'.le_max
+    d'.windowBytes.length ≤ d'.windowSize ∧ d'.windowSize = d.windowSize :=
+  commit_fresh_core key sl n d d' hr space cap h
 
 /-- a skipped block stays in the window (later blocks may match into it) and counts as processed -/
 theorem skip_keeps_window (hr : Reachable key sl n d) (h : d.skipMatching key = .ok d') :
-    d'.windowBytes = d.windowBytes ∧ d'.mg.processed = true := by
-  obtain ⟨hwf, _⟩ := reachable_wf key sl n d hr
-  unfold Driver.skipMatching at h
-  split at h
-  · simp at h
-  · rename_i g hg
-    simp only [Except.ok.injEq] at h
-    subst h
-    obtain ⟨_, hsh, _, last', hl', hend⟩ := skipMatching_spec key _ _ hwf hg
-    refine ⟨by rw [windowBytes_eq, windowBytes_eq, hsh], ?_⟩
-    simp [MatchGenerator.processed, hl', hend]
+    d'.windowBytes = d.windowBytes ∧ d'.mg.processed = true :=
+  skip_keeps_window_core key sl n d d' hr h
 
 /-- after `reset` nothing is retained -/
-theorem reset_empties_window : d.reset.windowBytes = [] ∧ d.reset.mg.processed = true := by
-  simp [Driver.reset, Driver.recycle, MatchGenerator.reset, Driver.windowBytes, MatchGenerator.processed]
+theorem reset_empties_window : d.reset.windowBytes = [] ∧ d.reset.mg.processed = true :=
+  reset_empties_window_core d
 
 /-! ### the invariant -/
 
@@ -281,140 +249,20 @@ theorem commit_requires_protocol (space : Array Byte) (cap : Nat) (h : d.commitS
 /-! ### the documented call order (`FrameCompressor::compress`): spaces come from `get_next_space` -/
 
 /-- `slice_size` never changes -/
-theorem slice_size_const (hr : Reachable key sl n d) : d.sliceSize = sl := by
-  induction hr with
-  | init => rfl
-  | step op _ hs ih =>
-    rename_i d0 d1
-    cases op with
-    | reset => simp only [Driver.step, Except.ok.injEq] at hs; subst hs; simpa [Driver.reset, Driver.recycle] using ih
-    | getNextSpace =>
-      simp only [Driver.step, Except.ok.injEq] at hs
-      subst hs
-      unfold Driver.getNextSpace
-      split <;> simpa using ih
-    | commitSpace space cap =>
-      simp only [Driver.step] at hs
-      unfold Driver.commitSpace at hs
-      split at hs
-      · simp at hs
-      · simp only [Except.ok.injEq] at hs; subst hs; simpa [Driver.recycle] using ih
-    | startMatching =>
-      simp only [Driver.step] at hs
-      split at hs
-      · simp at hs
-      · rename_i d2 sq hst
-        simp only [Except.ok.injEq] at hs
-        subst hs
-        unfold Driver.startMatching at hst
-        split at hst
-        · simp at hst
-        · simp only [Except.ok.injEq, Prod.mk.injEq] at hst
-          obtain ⟨rfl, _⟩ := hst
-          simpa using ih
-    | skipMatching =>
-      simp only [Driver.step] at hs
-      unfold Driver.skipMatching at hs
-      split at hs
-      · simp at hs
-      · simp only [Except.ok.injEq] at hs; subst hs; simpa using ih
+theorem slice_size_const (hr : Reachable key sl n d) : d.sliceSize = sl :=
+  slice_size_const_core key sl n d hr
 
 /-- As long as every committed vector has capacity `slice_size` (true when only spaces obtained from
 `get_next_space` are committed, truncated but never reallocated), every vector the driver owns has
 that capacity (`CapsOk`), through eviction, reset and recycling. -/
 theorem protocol_caps_preserved (hc : CapsOk d) (op : Op) (h : d.step key op = .ok d')
     (hop : ∀ space cap, op = .commitSpace space cap → space.size ≤ cap ∧ cap = d.sliceSize) :
-    CapsOk d' ∧ d'.sliceSize = d.sliceSize := by
-  obtain ⟨hc1, hc2⟩ := hc
-  cases op with
-  | reset =>
-    simp only [Driver.step, Except.ok.injEq] at h
-    subst h
-    refine ⟨⟨capsOk_recycle { d with mg := d.mg.reset.1 } d.mg.window hc1 hc2, ?_⟩, rfl⟩
-    intro p hp
-    simp [Driver.reset, Driver.recycle, MatchGenerator.reset, caps] at hp
-  | getNextSpace =>
-    simp only [Driver.step, Except.ok.injEq] at h
-    subst h
-    unfold Driver.getNextSpace
-    split
-    · exact ⟨⟨fun v hv => hc1 v (List.dropLast_subset _ hv), hc2⟩, rfl⟩
-    · exact ⟨⟨hc1, hc2⟩, rfl⟩
-  | commitSpace space cap =>
-    obtain ⟨hs1, hs2⟩ := hop space cap rfl
-    simp only [Driver.step] at h
-    unfold Driver.commitSpace at h
-    split at h
-    · simp at h
-    · rename_i g released hadd
-      simp only [Except.ok.injEq] at h
-      subst h
-      unfold MatchGenerator.addData at hadd
-      split at hadd
-      · simp at hadd
-      · split at hadd
-        · simp at hadd
-        · rename_i g1 ev hres
-          simp only [Except.ok.injEq, Prod.mk.injEq] at hadd
-          obtain ⟨rfl, rfl⟩ := hadd
-          unfold MatchGenerator.reserve at hres
-          split at hres
-          · simp at hres
-          · split at hres
-            · simp at hres
-            · rename_i w ws ev2 hloop
-              simp only [Except.ok.injEq, Prod.mk.injEq] at hres
-              obtain ⟨rfl, rfl⟩ := hres
-              obtain ⟨hw, _, _⟩ := reserveLoop_spec _ _ _ _ _ _ _ hloop
-              have hcw : caps d.mg.window = caps ev2 ++ caps w := by rw [hw]; simp [caps]
-              refine ⟨⟨?_, ?_⟩, rfl⟩
-              · apply capsOk_recycle _ ev2 hc1
-                intro p hp
-                exact hc2 p (by rw [hcw]; simp [hp])
-              · intro p hp
-                have hsh : caps (shiftBases w) = caps w := by
-                  unfold shiftBases
-                  split
-                  · rfl
-                  · simp [caps, List.map_map, Function.comp_def]
-                simp only [Driver.recycle, caps, List.map_append, List.map_cons, List.map_nil, List.mem_append,
-                  List.mem_singleton] at hp
-                rcases hp with hp | hp
-                · exact hc2 p (by rw [hcw]; simp only [List.mem_append]; right; rw [← hsh]; simpa [caps] using hp)
-                · subst hp; exact ⟨hs1, hs2⟩
-  | startMatching =>
-    simp only [Driver.step] at h
-    split at h
-    · simp at h
-    · rename_i d2 sq hst
-      simp only [Except.ok.injEq] at h
-      subst h
-      unfold Driver.startMatching at hst
-      split at hst
-      · simp at hst
-      · rename_i g sq' hg
-        simp only [Except.ok.injEq, Prod.mk.injEq] at hst
-        obtain ⟨rfl, _⟩ := hst
-        have := caps_startLoop key _ _ _ _ hg
-        exact ⟨⟨hc1, by simp only [this]; exact hc2⟩, rfl⟩
-  | skipMatching =>
-    simp only [Driver.step] at h
-    unfold Driver.skipMatching at h
-    split at h
-    · simp at h
-    · rename_i g hg
-      simp only [Except.ok.injEq] at h
-      subst h
-      have := caps_skipMatching key _ _ hg
-      exact ⟨⟨hc1, by simp only [this]; exact hc2⟩, rfl⟩
+    CapsOk d' ∧ d'.sliceSize = d.sliceSize :=
+  protocol_caps_preserved_core key d d' hc op h hop
 
 /-- under the protocol `get_next_space` always hands out exactly `slice_size` bytes -/
-theorem protocol_next_space (hc : CapsOk d) : d.getNextSpace.2.size = d.sliceSize := by
-  unfold Driver.getNextSpace
-  split
-  · rename_i v hv
-    exact hc.1 v (List.mem_of_getLast? hv)
-  · simp
+theorem protocol_next_space (hc : CapsOk d) : d.getNextSpace.2.size = d.sliceSize :=
+  protocol_next_space_core d hc
 
 /-- `add_data_assert_holds` under the driver protocol: with at least one slice, after `new`, `reset`,
 `start_matching` or `skip_matching` (`processed`), committing any data that fits the space handed out
@@ -535,6 +383,92 @@ theorem prod_window_is_current_block (hr : Reachable key sl 1 d) (space : Array 
       · rw [windowBytes_eq]
         simp [Driver.recycle, hw', shiftBases, flat]
 
+/-! ### `common_prefix_len` -/
+
+/-- `common_prefix_len(xs, ys) = mismatch_chunks::<8>(xs, ys)` with `xs = a[i..ihi]`, `ys = b[j..jhi]`
+(8-byte chunks first, then single bytes from where the chunk phase stopped) is exactly the length
+of the MAXIMAL common prefix: all bytes before it agree, and it stops only at the end of one of the
+slices or at a differing byte; it equals the plain byte-by-byte count.  Holds for every chunk size. -/
+theorem common_prefix_len_maximal (a : Array Byte) (i ihi : Nat) (b : Array Byte) (j jhi : Nat)
+    (ha : ihi ≤ a.size) (hb : jhi ≤ b.size) (hi : i ≤ ihi) (hj : j ≤ jhi) :
+    IsMaxCommonPrefix a i ihi b j jhi (mismatchChunks 8 a i ihi b j jhi) ∧
+    mismatchChunks 8 a i ihi b j jhi = commonPrefixLen a i ihi b j jhi :=
+  ⟨mismatchChunks_isMax 8 a i ihi b j jhi ha hb hi hj, mismatchChunks_eq_commonPrefixLen 8 a i ihi b j jhi ha hb hi hj⟩
+
+example : mismatchChunks 8 #[1,2,3,4,5,6,7,8,9,10,11,0] 0 12 #[1,2,3,4,5,6,7,8,9,10,12] 0 11 = 10 := by decide
+
+/-! ### the compressor's call protocol (`FrameCompressor::compress` / `compress_fastest`):
+the built-in matcher is a VALID MATCHER in the sense of the encoder model (C16 / C02) and never panics
+
+`Enc.builtinFrame lvl d data` (Model/EncCoders.lean) drives this model the way `compress` does:
+`reset`, then per block `get_next_space`, `commit_space` of the block read into that space,
+`skip_matching` when the block is constant (RLE) and `start_matching` otherwise, stopping after the
+first block that is not full (or the extra empty block).  `BuiltinState sl n d` = `d` is reachable from
+`MatchGeneratorDriver::new(sl, n)` with the code's hash and every vector it owns has capacity `sl`
+(only spaces from `get_next_space` were committed).  It holds for a new compressor
+(`builtin_state_fresh`), is re-established by every frame at every level (`builtin_no_fault`), hence
+holds after ANY history of frames (`builtin_state_history`), including frames that panicked outside the
+matcher (the matcher is then simply in a reachable state, and the next frame starts with `reset`).
+Read fragmentation does not reach the matcher: `compress` fills every space completely before it
+commits it.
+
+`Enc.ValidMatcher W script data`: every space has 1..=128 KiB, `W ≤ 2^41`, and for every block that
+is not constant the reported sequences, executed on top of the WHOLE frame before the block
+(`3 ≤ match_len`, `1 ≤ offset ≤ min W (bytes before the match position in the frame)`), regenerate
+exactly the block.  What the matcher retains is a suffix of the frame so far whatever was evicted
+(`commit_fresh`), so a true match at distance `offset` in the retained window (`true_match`,
+`offset_le_retained`, `offset_le_window`) is one in the frame.  With the production constants
+(one slice of 128 KiB) that suffix is the current block (`prod_window_is_current_block`). -/
+
+theorem builtin_state_fresh : BuiltinState sl n (Driver.new sl n) := builtinState_new sl n
+
+/-- `builtin_no_fault`: for every level, input and state the protocol can produce, no call the
+compressor makes on the built-in matcher panics (asserts of `add_data`/`reserve`, slices, `unwrap`s,
+slot indexing with the code's hash; the model's fuel does not run out), and the state stays in the
+protocol -/
+theorem builtin_no_fault (hsl : 0 < sl) (hn : 1 ≤ n) (lvl : Enc.Level) (hbs : BuiltinState sl n d) (data : List Byte) :
+    ∃ d' arr, Enc.builtinFrame lvl d data = .ok (d', arr) ∧ BuiltinState sl n d' :=
+  builtinFrame_no_fault sl n hsl hn lvl d hbs data
+
+/-- after any history of frames (any levels, any inputs) through one compressor -/
+theorem builtin_state_history (hsl : 0 < sl) (hn : 1 ≤ n) (jobs : List (Enc.Level × List Byte)) :
+    BuiltinState sl n (builtinHistory jobs (Driver.new sl n)) :=
+  builtinHistory_state sl n hsl hn jobs _ (builtinState_new sl n)
+
+/-- `builtin_valid_matcher`, any slice size / slice count: the script of a Fastest frame is a
+`ValidMatcher` for the advertised window `n * sl` -/
+theorem builtin_valid_matcher_general (hsl : 0 < sl) (hn : 1 ≤ n) (hmax : sl ≤ Zstd.Gen.maxBlockSize)
+    (hw : n * sl ≤ 2 ^ 41) (hbs : BuiltinState sl n d) (data : List Byte) :
+    ∃ d' arr, Enc.builtinFrame .fastest d data = .ok (d', arr) ∧ BuiltinState sl n d' ∧
+      Enc.ValidMatcher (n * sl) (Enc.scriptOfArray arr sl) data :=
+  builtinFrame_fastest_valid sl n hsl hn hmax hw d hbs data
+
+/-- **`builtin_valid_matcher`** with the production constants (`FrameCompressor::new`:
+`MatchGeneratorDriver::new(128 KiB, 1)`), in the form C02 needs it: for every input and every state
+of the matcher the compressor's protocol can produce -/
+theorem builtin_valid_matcher (hbs : BuiltinState Zstd.Gen.prodSliceSize Zstd.Gen.prodMaxSlices d) (data : List Byte) :
+    ∃ d' arr, Enc.builtinFrame .fastest d data = .ok (d', arr) ∧
+      BuiltinState Zstd.Gen.prodSliceSize Zstd.Gen.prodMaxSlices d' ∧
+      Enc.ValidMatcher Enc.builtinWindow (Enc.scriptOfArray arr Zstd.Gen.prodSliceSize) data :=
+  builtinFrame_fastest_valid Zstd.Gen.prodSliceSize Zstd.Gen.prodMaxSlices (by decide) (by decide) (by decide)
+    (by decide) d hbs data
+
+/-- … in particular for every input, after every history of frames through the same compressor -/
+theorem builtin_valid_matcher_history (jobs : List (Enc.Level × List Byte)) (data : List Byte) :
+    ∃ d' arr, Enc.builtinFrame .fastest
+        (builtinHistory jobs (Driver.new Zstd.Gen.prodSliceSize Zstd.Gen.prodMaxSlices)) data = .ok (d', arr) ∧
+      Enc.ValidMatcher Enc.builtinWindow (Enc.scriptOfArray arr Zstd.Gen.prodSliceSize) data := by
+  obtain ⟨d', arr, h1, _, h3⟩ := builtin_valid_matcher _
+    (builtin_state_history Zstd.Gen.prodSliceSize Zstd.Gen.prodMaxSlices (by decide) (by decide) jobs) data
+  exact ⟨d', arr, h1, h3⟩
+
+/-- one block, the statement the loop is built from: what `start_matching` reports right after
+`commit_space` is a valid parse of the block on top of ANYTHING that ends with the retained bytes -/
+theorem start_matching_valid_parse (hr : Reachable key sl n d) (h : d.startMatching key = .ok (d', seqs))
+    (h0 : d.mg.suffixIdx = 0) (X : List Byte) :
+    Enc.validParse d.windowSize (X ++ d.windowBytes.take d.retainedBefore) d.block (Enc.parseOfSeqs seqs [] []) = true :=
+  start_validParse key sl n d d' seqs hr h h0 X
+
 /-! ### non-vacuity: the hypotheses are satisfiable and the conclusions are about real matches -/
 
 /-- the trace of the crate's unit test, first block: `[0; 10]` yields literals `[0; 5]` and the
@@ -551,6 +485,32 @@ example : (do
     let d ← d.commitSpace #[1, 2, 3, 4, 5, 6, 7, 9] 8
     let (_, s) ← d.startMatching realKey
     pure s) = Except.ok [.triple [] 8 7, .literals [9]] := by decide +kernel
+
+/-- input of the example below: 16 distinct bytes, 16 equal bytes, a block repeating parts of both, a short constant block -/
+def exampleFrameData : List Byte :=
+  [1,2,3,4,5,6,7,8,9,10,11,12,13,14,15,16, 7,7,7,7,7,7,7,7,7,7,7,7,7,7,7,7] ++
+  [30,31,5,6,7,8,9,10,11,40,7,7,7,7,7,7, 9,9]
+
+/-- non-vacuity of `builtin_valid_matcher_general`: a four-block frame through a fresh 16 × 3 driver;
+the third block is reported as a match into the first block (offset 30, length 7) and one into the
+SKIPPED constant second block (offset 26, length 6); the encoder model's executable `ValidMatcher`
+check accepts the script -/
+example :
+    (Enc.builtinFrame .fastest (Driver.new 16 3) exampleFrameData).map (fun r =>
+      Enc.validMatcherB 48 (Enc.scriptOfArray r.2 16) exampleFrameData 10 0) = .ok true := by
+  decide +kernel
+
+/-- … and these are the (literal count, offset, match length) triples per block of that script -/
+example :
+    (Enc.builtinFrame .fastest (Driver.new 16 3) exampleFrameData).map (fun r =>
+      r.2.toList.map (fun b => b.parse.seqs.map (fun s => [s.lits.length, s.offset, s.matchLen])))
+    = .ok [[], [], [[2, 30, 7], [1, 26, 6]], []] := by
+  decide +kernel
+
+example : BuiltinState Zstd.Gen.prodSliceSize Zstd.Gen.prodMaxSlices
+    (builtinHistory [(.fastest, [1, 2, 3]), (.uncompressed, [4]), (.best, [5])]
+      (Driver.new Zstd.Gen.prodSliceSize Zstd.Gen.prodMaxSlices)) :=
+  builtin_state_history _ _ (by decide) (by decide) _
 
 example : Reachable realKey 1000 1 (Driver.new 1000 1) := .init
 
